@@ -217,8 +217,9 @@ def gen_x_source(rng, nprng, N, comp, amps):
         if ik == "interf":
             U2 = U
         else:  # different unitary on the idler half: unrelated, or equal moduli with phases before / after
-            v = rng.choice(["haar", "phases-before", "phases-after"])
-            D = np.diag(np.exp(1j * nprng.uniform(0.3, 2.8, N)))
+            v = rng.choice(["haar", "phases-before", "phases-after", "phases-before", "phases-after"])
+            # clearly different, or a little beyond numpy.allclose's tolerance (rtol 1e-5)
+            D = np.diag(np.exp(1j * (nprng.uniform(0.3, 2.8, N) if rng.random() < 0.5 else rng.choice([3e-5, 1e-4, 1e-3]) * np.ones(N))))
             U2 = hw12.rand_unitary(nprng, N, "haar") if v == "haar" else (U @ D if v == "phases-before" else D @ U)
         ops_.append(dict(cls="Interferometer", regs=list(range(N)), U=enc_U(U)))
         ops_.append(dict(cls="Interferometer", regs=list(range(N, n)), U=enc_U(U2)))
@@ -232,7 +233,7 @@ def gen_x_source(rng, nprng, N, comp, amps):
     kind.append(ik)
     # ---- inverse flags (S2gate(r).H = S2gate(-r), ...): on single squeezers, inside repeated groups, on the interferometer
     if rng.random() < 0.22:
-        cand = [i for i, o in enumerate(ops_) if o["cls"] in ("S2gate", "Rgate", "BSgate", "MZgate", "Interferometer", "Sgate")]
+        cand = [i for i, o in enumerate(ops_) if o["cls"] in ("S2gate", "Rgate", "BSgate", "MZgate", "Sgate")]
         if cand:
             i = rng.choice(cand)
             ops_[i]["dagger"] = True
